@@ -15,7 +15,7 @@ def q2f(q):
     return None if q[1] == 0 else q[0] / q[1]
 
 
-def build(opts):
+def build(opts, spiral=False):
     from numdifftools.step_generators import MinStepGenerator, MaxStepGenerator
     from numdifftools.limits import CStepGenerator
     kw = dict(base_step=q2f(opts['base']), step_ratio=q2f(opts['ratio']),
@@ -23,6 +23,8 @@ def build(opts):
               offset=q2f(opts['offset']), num_extrap=opts['extrap'], use_exact_steps=opts['exact'],
               check_num_steps=opts['check'], scale=q2f(opts['scale']))
     cls = dict(Min=MinStepGenerator, Max=MaxStepGenerator, C=CStepGenerator)[opts['cls']]
+    if spiral:
+        kw['path'] = 'spiral'          # dtheta left at its documented default pi/8
     return cls(**kw)
 
 
@@ -41,6 +43,8 @@ def expected(rec, x):
     xa = np.asarray(x)
     nom = np.full(xa.shape, nv[0] / nv[1]) if nk == 'user' else np.maximum(np.log(1.718281828459045 + np.abs(xa)), 1.0)
     ratio = rec['ratio'][0] / rec['ratio'][1]
+    if rec['fam'] == 'spiral':
+        ratio = np.exp(1j * np.pi / 8) * ratio
     b = base * nom
     if rec['exact']:
         b = (b + 1.0) - 1.0
@@ -64,6 +68,11 @@ def compare(rec, gen, x):
             return 'step %d has shape %s, model %s' % (i, g.shape, w.shape)
         e = rec['exps'][i][0] / rec['exps'][i][1]
         tol = 1e-12 * np.abs(w) + (4.5e-16 * abs(ratio) ** e if rec['exact'] else 0.0)
+        if rec['fam'] == 'spiral' and rec['angles']:
+            # the angle of step i is dtheta * exponent (units of pi), from the specification
+            ang = np.pi * rec['angles'][i][0] / rec['angles'][i][1]
+            if (np.abs(np.angle(g * np.exp(-1j * ang))) > 1e-9).any():
+                return 'step %d has angle %r, model %r' % (i, np.angle(g).tolist(), ang)
         if (np.abs(g - w) > tol).any():
             return 'step %d is %r, model %r (base %s, nominal %s, ratio %s, exponent %s)' % (i, g.tolist(), w.tolist(), rec['base'], rec['nom'], rec['ratio'], rec['exps'][i])
     mags = [float(np.max(np.abs(g))) for g in got]
@@ -81,7 +90,7 @@ def work(group):
     bad = []
     n = 0
     try:
-        gen = build_deriv(recs[0]) if recs[0]['fam'] == 'deriv' else build(recs[0]['opts'])
+        gen = build_deriv(recs[0]) if recs[0]['fam'] == 'deriv' else build(recs[0]['opts'], spiral=recs[0]['fam'] == 'spiral')
     except Exception as ex:
         return [(recs[0], 'constructor raised %r' % (ex,))], 0
     calls = [(r, xi) for r in recs for xi in range(len(XS))]
@@ -110,7 +119,7 @@ def run(tier, rep):
     check_ln_table(rep)
     cfg = open(vlib.SPEC + '/MC_StepGen.cfg').read()
     if tier == 'quick':
-        cfg = cfg.replace('ValN = {1, 2, 5, 8}', 'ValN = {1, 5}').replace('ValO = {1, 2, 4, 6}', 'ValO = {2, 4}')
+        cfg = cfg.replace('ValN = {1, 2, 5, 8}', 'ValN = {1, 5}').replace('ValO = {1, 2, 3, 4, 6}', 'ValO = {2, 3}')
     res = vlib.tlc('MC_StepGen', cfg_text=cfg, tag='MC_StepGen')
     if res.violated:
         raise vlib.MachineryError('model violates %s\n%s' % (res.violated, res.out[-1500:]))
